@@ -6,7 +6,7 @@
 (* machine, yields Expected(version) without tripping an enabling condition.  *)
 EXTENDS DbCatalog, Json
 
-CONSTANTS MaxEdits, Sample
+CONSTANTS MaxEdits, Sample, Deep   \* Deep: every table refers twice to earlier tables, to foreign-key columns where there are any
 
 Names == <<"Ta", "Tb", "Tc", "Td">>
 
@@ -45,17 +45,22 @@ NewTable(v, t) ==
       n == IF RandomElement(1..2) = 1 THEN <<PrimCol("n", "string", RandomElement({0, 20}), FALSE, FALSE)>> ELSE <<>>
       d == IF RandomElement(1..3) = 1 THEN <<PrimCol("d", RandomElement({"date", "float", "bool"}), 0, FALSE, FALSE)>> ELSE <<>>
       tg == Targets(v, t)
-      r1 == IF tg # {} /\ RandomElement(1..3) > 1
-              THEN One({<<RefCol("r1", x[1], x[2], FALSE)>> : x \in {RandomElement(tg)}}) ELSE <<>>
-      r2 == IF tg # {} /\ RandomElement(1..3) = 1
-              THEN One({<<RefCol("r2", x[1], x[2], RandomElement(1..4) = 1)>> : x \in {RandomElement(tg)}}) ELSE <<>>
+      \* Deep: r1 refers to the first table (resolved at once), r2 to the table just before (resolved last), and the
+      \* last table refers to the r1 column of the table before it: a foreign key to a foreign key of a table that is
+      \* still waiting for its other reference
+      prev == Names[IF Rank(t) > 1 THEN Rank(t) - 1 ELSE 1]
+      deep1 == IF Rank(t) = Len(Names) /\ HasCol(v, prev, "r1") THEN <<prev, "r1">> ELSE <<Names[1], "id">>
+      r1 == IF tg # {} /\ (Deep \/ RandomElement(1..3) > 1)
+              THEN One({<<RefCol("r1", x[1], x[2], FALSE)>> : x \in {IF Deep THEN deep1 ELSE RandomElement(tg)}}) ELSE <<>>
+      r2 == IF tg # {} /\ (Deep \/ RandomElement(1..3) = 1)
+              THEN One({<<RefCol("r2", x[1], x[2], RandomElement(1..4) = 1)>> : x \in {IF Deep THEN <<prev, "id">> ELSE RandomElement(tg)}}) ELSE <<>>
   IN [name |-> t, cols |-> base \o k2 \o n \o d \o r1 \o r2]
 
 Init == vs = << <<>> >> /\ step = 0
 
 Setup == /\ Len(vs) = 1 /\ step < Len(Names)
          /\ LET t == Names[step + 1] IN
-            IF step = 0 \/ RandomElement(1..4) > 1
+            IF step = 0 \/ Deep \/ RandomElement(1..4) > 1
               THEN vs' = <<InsertTable(Cur, NewTable(Cur, t))>>
               ELSE vs' = vs
          /\ step' = step + 1
